@@ -321,6 +321,9 @@ def run(ctx):
         psh = [b for b, t in bt.calls() if A.cname(t).endswith("Vec::<T, A>::push")]
         ok = bool(psh) and bool(cb) and all(cb[0] in A.reach_after(bt, p) and p not in A.reach_after(bt, cb[0]) for p in psh)
         ctx.ob("R-C03.5", bt, "all-items-pushed-before-commit", ok, "every item is pushed into the batch before its single commit" if ok else "items are pushed after the batch commit")
+    # "all": nothing the transaction buffered is left out of its single batch (dedupe keeps the newest write per key and keyspace; shared with C08)
+    from . import C08
+    C08.commit_rules(ctx, "R-C03.7")
     for fid in ("tx::single_writer::write_tx::WriteTransaction::<'tx>::commit", "tx::optimistic::write_tx::WriteTransaction::commit"):
         fn = ctx.fn(fid, "R-C03.5")
         if fn:
